@@ -33,7 +33,7 @@ mkdir -p $D/verif/work
 # lean build output: synchronised every time (oleans are position independent enough; lake re-checks hashes), so that
 # an environment never has to recompile the proof libraries
 mkdir -p $D/verif/lean/.lake
-rsync -a --delete /verif/lean/.lake/ $D/verif/lean/.lake/
+rsync -a --delete /verif/lean/.lake/ $D/verif/lean/.lake/ || true   # files may vanish while a builder rebuilds: lake re-checks hashes anyway
 # cargo target: seed from /verif's to avoid recompiling the registry crates
 if [ ! -d $D/verif/work/target ]; then cp -r /verif/work/target $D/verif/work/target 2>/dev/null || true; fi
 sed -i "s#/repo/#$D/repo/#g" $D/verif/harness/Cargo.toml
